@@ -139,6 +139,13 @@ func corpus() []tarcase.FSCase {
 				{Path: "g", Kind: "reg", Via: "api", Mode: 0o644, Sec: t0, Nsec: 499999999, Size: 1}}},
 			// known finding C06-F4: xattr on a character device
 			tarcase.FSCase{Name: "F4-chardev-xattr", Backend: be, Ops: []tarcase.Op{{Path: "null", Kind: "chr", Via: "api", Mode: 0o666, Sec: t0, Maj: 1, Min: 3, Xattrs: map[string]string{"security.selinux": "u:r"}}}},
+			func() tarcase.FSCase {
+				c := tarcase.FSCase{Name: "symlink-targets", Backend: be, Ops: []tarcase.Op{d("lib", 0o755), f("lib/libz.so.1", 0o755, 3), d("l", 0o755)}}
+				for i, t := range linkTargets {
+					c.Ops = append(c.Ops, tarcase.Op{Path: fmt.Sprintf("l/s%02d", i), Kind: "sym", Via: "api", Target: t})
+				}
+				return c
+			}(),
 			tarcase.FSCase{Name: "zero-time", Backend: be, Ops: []tarcase.Op{{Path: "d", Kind: "dir", Via: "api", Mode: 0o755, NoTime: true}, {Path: "d/f", Kind: "reg", Via: "api", Mode: 0o644, NoTime: true, Size: 2}}},
 		)
 	}
@@ -151,6 +158,13 @@ func corpus() []tarcase.FSCase {
 			{Path: "usr/lib/libc.so.6", Kind: "sym", Via: "hdr", Target: "libc.so", Sec: t0 + 4, Pkg: "libc"},
 			{Path: "usr/lib/libc.so.hard", Kind: "link", Via: "hdr", Target: "usr/lib/libc.so", Sec: t0 + 4, Pkg: "libc"},
 		}},
+		func() tarcase.FSCase {
+			c := tarcase.FSCase{Name: "symlink-targets-from-package", Backend: "tarfs", Ops: []tarcase.Op{{Path: "l", Kind: "dir", Via: "hdr", Mode: 0o755, Sec: t0, Pkg: "p"}}}
+			for i, t := range linkTargets {
+				c.Ops = append(c.Ops, tarcase.Op{Path: fmt.Sprintf("l/s%02d", i), Kind: "sym", Via: "hdr", Target: t, Sec: t0, Pkg: "p"})
+			}
+			return c
+		}(),
 		// candidate finding C06-F2: a recorded hard link that sorts before its target
 		tarcase.FSCase{Name: "F2-link-before-target", Backend: "tarfs", Ops: []tarcase.Op{d("bin", 0o755),
 			{Path: "bin/z", Kind: "reg", Via: "hdr", Mode: 0o755, Sec: t0, Size: 5, CSeed: 7, Pkg: "p"},
@@ -168,6 +182,31 @@ func corpus() []tarcase.FSCase {
 			{Path: "sbin/t", Kind: "link", Via: "hdr", Target: "bin/s", Sec: t0, Pkg: "p"}}},
 	)
 	return cs
+}
+
+// ---- symlink targets ----------------------------------------------------------------
+// A symlink target is an opaque byte string: it must come out of the layer
+// exactly as Readlink reports it, in Clean normal form or not, resolving or not.
+
+var linkTargets = []string{
+	"current/../shared", "lib/", "./libz.so.1", "../proc/self//mounts", "../run/.", ".", "..", "/", "//", "/.", "./", "../", "a//b", "a/./b", "a/b/..",
+	"/usr/../bin/sh", "//usr/bin/sh", "/usr/bin/", "/usr/bin/.", "../../../../etc/passwd", "./././x", "x/", "x/.", "x/..", "dangling/../nowhere", " ", "a b/", "\xc3\xa9/../\xe2\x98\x95/",
+	"\xff/./\xfe", strings.Repeat("../", 40) + "x", strings.Repeat("d/", 60) + ".", "/" + strings.Repeat("t", 99), "./" + strings.Repeat("t", 99), strings.Repeat("t", 100) + "/",
+}
+
+func genTarget(r *gal.Rand) string {
+	comps := []string{".", "..", "x", "lib", "usr", "a b", "\xc3\xa9", "libz.so.1", strings.Repeat("t", 40)}
+	var sb strings.Builder
+	sb.WriteString(gal.Pick(r, []string{"", "", "/", "//", "./", "../"}))
+	n := 1 + r.Intn(5)
+	for i := 0; i < n; i++ {
+		if i > 0 {
+			sb.WriteString(gal.Pick(r, []string{"/", "/", "/", "//"}))
+		}
+		sb.WriteString(gal.Pick(r, comps))
+	}
+	sb.WriteString(gal.Pick(r, []string{"", "", "", "/", "/.", "//", "/.."}))
+	return sb.String()
 }
 
 // ---- random generator ---------------------------------------------------------------
@@ -252,7 +291,14 @@ func genCase(r *gal.Rand, i int, tier string) tarcase.FSCase {
 			regs = append(regs, p)
 		case k < 8:
 			o.Kind, o.Xattrs = "sym", nil
-			o.Target = gal.Pick(r, []string{"/bin/busybox", "../x", "x", "/nonexistent/" + strings.Repeat("t", 120), "a b", "\xc3\xa9"})
+			switch r.Intn(3) {
+			case 0:
+				o.Target = gal.Pick(r, []string{"/bin/busybox", "../x", "x", "/nonexistent/" + strings.Repeat("t", 120), "a b", "\xc3\xa9"})
+			case 1:
+				o.Target = gal.Pick(r, linkTargets)
+			default:
+				o.Target = genTarget(r)
+			}
 		case k < 9:
 			o.Kind, o.Mode, o.Via = "chr", perm&0o777, "api"
 			o.Xattrs = nil
